@@ -782,8 +782,25 @@ func realPush(t *testing.T, r *ev.Run) {
 		}
 		e.PushMetrics()
 		e.Stop()
-		// everything written has been handed to the kernel; let the readers drain
-		time.Sleep(50 * time.Millisecond)
+		// the exporter has written and closed its connections: wait (logical
+		// condition, generous watchdog) until both stream collectors have read
+		// a connection to its end before the listeners go away
+		deadline := time.Now().Add(30 * time.Second)
+		for time.Now().Before(deadline) {
+			n := 0
+			for _, name := range []string{"graphite", "collectd"} {
+				x := got[name]
+				x.mu.Lock()
+				if x.conns >= 1 {
+					n++
+				}
+				x.mu.Unlock()
+			}
+			if n == 2 {
+				break
+			}
+			time.Sleep(time.Millisecond)
+		}
 		tl.Close()
 		ul.Close()
 		uc.SetReadDeadline(time.Now().Add(200 * time.Millisecond))
